@@ -2,10 +2,12 @@ import Driver.ProgJson
 import Heph.Model.TransGroovy
 /-! ops of the Groovy translator model (`Heph.TransGroovy`):
  * `trans.groovy` `{program: <export>, package: str|null, history?: [<export>…], cast_numbers?: bool}` → text of
-   `program` printed by a translator object that has already translated the programs of `history`
+   `program` printed by a translator object that has already translated the programs of `history`; the object may
+   start from hand-set attributes (`ident`, `is_unit`, `_cast_number`, `_inside_is`, `_inside_is_function`,
+   `_namespace`, `_children_res`; default: the values after `__init__`)
  * `trans.groovy.state` (same request) → the attributes of the object after translating history and program
  * `trans.groovy.visit` `{program, ident?, is_unit?, _cast_number?, _inside_is?, _inside_is_function?,
-   _namespace?, cast_numbers?}` → the top-level declarations visited in turn from that hand-set state (no
+   _namespace?, _children_res?, cast_numbers?}` → the top-level declarations visited in turn from that hand-set state (no
    `visit_program`): `{"texts": _children_res, "state": attributes afterwards}`
  An export is `harness/export_ast.export_program`: beside `tt`, `decls`, `context` it carries `ctxinfo`, parallel to
  `context`: `null` for a `None` value, the `class_type` of a class declaration, `-1` for anything else. -/
@@ -54,8 +56,25 @@ def stJson (st : St) (o : Out) (package : Option String) : Json :=
     ("_main_method", Json.str o.mainMethod),
     ("package", match package with | some s => Json.str s | none => Json.null)]
 
+/-- hand-set attributes of the request (absent = value after `__init__`) -/
+def handSt (j : Json) (ctx : Option Env) : Except String St := do
+  let ns ← match j.getObjVal? "_namespace" with
+    | .error _ => pure ["global"]
+    | .ok a => (← a.getArr?).toList.mapM fun s => s.getStr?
+  pure { ident := (j.getObjValAs? Nat "ident").toOption.getD 0,
+         isUnit := getB j "is_unit", castNumber := getB j "_cast_number",
+         insideIs := getB j "_inside_is", insideIsFunction := getB j "_inside_is_function",
+         ns := ns, alwaysCastNumbers := getB j "cast_numbers", context := ctx }
+
+def handOut (j : Json) : Except String Out := do
+  match j.getObjVal? "_children_res" with
+  | .error _ => pure {}
+  | .ok a => do pure { childrenRes := ← (← a.getArr?).toList.mapM fun s => s.getStr? }
+
+/-- the object the request starts from: constructed (with hand-set attributes, if any), then the history -/
 def startObj (j : Json) : Except String Obj := do
-  pure (after (initObj (getPackage j) (getB j "cast_numbers")) (← getHistory j))
+  let ob : Obj := { st := ← handSt j none, out := ← handOut j, package := getPackage j }
+  pure (after ob (← getHistory j))
 
 def handle : Handler := fun op j =>
   match op with
@@ -68,14 +87,7 @@ def handle : Handler := fun op j =>
       pure (res (stJson ob.st ob.out ob.package)))
   | "trans.groovy.visit" => some (do
       let p ← getProgram j
-      let ns ← match j.getObjVal? "_namespace" with
-        | .error _ => pure ["global"]
-        | .ok a => (← a.getArr?).toList.mapM fun s => s.getStr?
-      let st0 : St := { ident := (j.getObjValAs? Nat "ident").toOption.getD 0,
-                        isUnit := getB j "is_unit", castNumber := getB j "_cast_number",
-                        insideIs := getB j "_inside_is", insideIsFunction := getB j "_inside_is_function",
-                        ns := ns, alwaysCastNumbers := getB j "cast_numbers", context := some p.env }
-      let r := visitL st0 {} p.decls
+      let r := visitL (← handSt j (some p.env)) (← handOut j) p.decls
       pure (res (Json.mkObj [("texts", ofStrList r.2.childrenRes), ("state", stJson r.1 r.2 none)])))
   | _ => none
 
